@@ -55,7 +55,8 @@ func baselines() []string {
 var scenarioNames = [][]string{{"parse-one", "parse-two"}, {"parse-one", "parse-one"}, {"parse-one", "parse-one-dfa"}, {"parse-two", "pattern"},
 	{"parse-bad", "parse-one"}, {"parse-three-lalr", "parse-two"}, {"pattern-class", "pattern-negated-class"}, {"parse-one", "parse-two", "pattern"}, {"parse-one", "parse-one", "parse-bad"},
 	{"ast-negated-unicode", "ast-any-nondigit"}, {"ast-negated-unicode", "ast-negated-unicode"}, {"ast-classes", "ast-any-nondigit"},
-	{"nfa-any-nonword", "pattern-negated-class"}, {"parse-four-dfa", "ast-negated-unicode"}, {"parse-five-dfa", "parse-six-dfa"}, {"generate-two", "generate-six-debug"}, {"generate-two", "generate-two"}, {"generate-rep-literal", "generate-rep-pattern"}}
+	{"nfa-any-nonword", "pattern-negated-class"}, {"parse-four-dfa", "ast-negated-unicode"}, {"parse-five-dfa", "parse-six-dfa"}, {"generate-two", "generate-six-debug"}, {"generate-two", "generate-two"}, {"generate-rep-literal", "generate-rep-pattern"},
+	{"fail-pattern-unclosed-groups", "pattern"}, {"fail-spec-syntax", "parse-one"}, {"fail-ast-unclosed-groups", "ast-classes"}}
 
 var scenarios = func() [][]int {
 	var out [][]int
@@ -300,7 +301,7 @@ func main() {
 		racePass(r, rounds)
 	}
 	if r.Fork(16) {
-		r.Set("rule", "part 1: 18 scenarios of 2-3 concurrent operations (two specifications built to collide on repeated multi-symbol sub-expressions, a pattern, a specification with errors, automaton and table construction); scheduling points = every statement of /repo touching a package-level variable; all interleavings with at most the preemption bound, preempting at the first 6 (quick) / 24 (thorough) dynamic occurrences of every static point, are enumerated, each thread's result compared with the same operation run alone in a fresh process, and every returned specification rendered again after all threads have finished (a result must stay what it was); states = distinct outcomes, transitions = scheduling points passed; part 2: free-running -race pass; part 3: every sequential history up to the length bound over 19 operations")
+		r.Set("rule", "part 1: 21 scenarios of 2-3 concurrent operations (two specifications built to collide on repeated multi-symbol sub-expressions, a pattern, a specification with errors, automaton and table construction); scheduling points = every statement of /repo touching a package-level variable; all interleavings with at most the preemption bound, preempting at the first 6 (quick) / 24 (thorough) dynamic occurrences of every static point, are enumerated, each thread's result compared with the same operation run alone in a fresh process, and every returned specification rendered again after all threads have finished (a result must stay what it was); states = distinct outcomes, transitions = scheduling points passed; part 2: free-running -race pass; part 3: every sequential history up to the length bound over 19 operations that succeed or fail as a whole, every shorter history over all 29 operations (10 of them fail midway: unclosed groups and brackets, bad ranges, lexical / syntax errors inside open brackets, unterminated strings, invalid token patterns); part 4: every operation repeated up to the repetition bound, then every operation once")
 		r.Set("evaluations", r.Get("executions")+r.Get("histories"))
 		r.Set("traces_validated_against_impl", r.Get("executions")+r.Get("histories"))
 		if r.Get("states") == 0 {
@@ -352,14 +353,69 @@ func main() {
 			return
 		}
 		for i := range Ops {
+			// histories of the full length: over the operations that succeed or fail cleanly as a whole, and those
+			// that start with two failing operations; shorter ones over all operations
+			if len(seq)+1 == maxLen && maxLen >= 3 {
+				anyFail := Fails(i)
+				for _, o := range seq {
+					anyFail = anyFail || Fails(o)
+				}
+				if anyFail && !(Fails(seq[0]) && Fails(seq[1])) {
+					continue
+				}
+			}
 			seq = append(seq, i)
 			rec(k - 1)
 			seq = seq[:len(seq)-1]
 		}
 	}
 	rec(maxLen)
+	// part 4: accumulation - one operation repeated many times (what a failing or succeeding run leaves behind may
+	// add up: counters, caches, pools), then every operation once
+	reps := 130
+	if !r.Quick() {
+		reps = 1100
+	}
+	r.Set("bound_repetitions", reps)
+	for f := range Ops {
+		if !Cheap(f) {
+			continue
+		}
+		n++
+		if r.MineIdx(n) && !r.Expired() {
+			accumulate(r, base, f, reps)
+		}
+	}
 	r.Assume("the dependency is never preempted inside (its package-level hashers are outside emerge's control; they are covered by the free-running race pass and recorded as a known finding)")
 	r.Finish()
+}
+
+func accumulate(r *ev.Run, base []string, f, reps int) {
+	r.Add("accumulations", 1)
+	r.Distinct(fmt.Sprintf("acc %d", f))
+	Recheck()
+	var seq []int
+	for k := 0; k < reps; k++ {
+		seq = append(seq, f)
+		if got := safeRun(f); got != base[f] {
+			r.Report("", fmt.Sprintf("repetition %d of %s returns a result that differs from its isolated run:\n--- isolated ---\n%s\n--- now ---\n%s", k+1, Ops[f].Name, clip(base[f]), clip(got)), replayInput{History: seq})
+			return
+		}
+		if k%16 == 15 {
+			Recheck() // the renderings remembered so far are compared and forgotten (bounded memory)
+		}
+	}
+	for g := range Ops {
+		seq = append(seq, g)
+		r.Add("histories", 1)
+		if got := safeRun(g); got != base[g] {
+			r.Report("", fmt.Sprintf("after %d repetitions of %s, %s returns a result that differs from its isolated run:\n--- isolated ---\n%s\n--- now ---\n%s", reps, Ops[f].Name, Ops[g].Name, clip(base[g]), clip(got)), replayInput{History: seq})
+			return
+		}
+	}
+	if d := Recheck(); d != "" {
+		r.Report("", fmt.Sprintf("after %d repetitions of %s and every operation once: a result that had been returned changed afterwards:\n%s", reps, Ops[f].Name, clip(d)), replayInput{History: seq})
+	}
 }
 
 func history(r *ev.Run, base []string, seq []int) {
